@@ -174,7 +174,7 @@ func c17Digests(v c17Value) []string {
 
 func runC17(r *rt.Runner) {
 	emit := os.Getenv("VERIF_C17_EMIT") == "1"
-	nVals := r.N(48, 800)
+	nVals := r.N(96, 800)
 	repeats := r.N(12, 30)
 	children := r.N(4, 10)
 	for k := 0; k < nVals; k++ {
